@@ -1,5 +1,5 @@
 import LeptosModel.Model.Reactive
-import LeptosModel.Proofs.ReactiveBasic
+import LeptosModel.Proofs.ReactiveTop
 /-!
 # C01 — derived values equal a from-scratch recomputation
 
@@ -17,11 +17,30 @@ def progTracked (p : Prog) : Bool :=
 def isData (p : Prog) (i : Nat) : Bool :=
   match p[i]? with | some (.sig _) => true | some (.memo _) => true | _ => false
 
-/-- **full statement**: after any history (writes incl. equal values, reads of any node in any
-order, executor polls), reading any signal or memo returns its from-scratch value. -/
+/-- **full statement** (OPEN for programs with effects; proved below for programs without effects):
+after any history (writes incl. equal values, reads of any node in any order, executor polls),
+reading any signal or memo returns its from-scratch value. -/
 def C01_read_eq_scratch_stmt : Prop :=
   ∀ (p : Prog) (ops : List Op) (m : Nat), WF p = true → progTracked p = true → isData p m = true →
     (step p (run p ops) (.read m)).2 = some (specVal p (run p ops) m)
+
+theorem progTracked_eq (p : Prog) : progTracked p = bodiesTracked p := rfl
+
+/-- **stage (a)**: the full statement restricted by the decidable hypothesis `noEff p = true`
+(the program consists of signals and memos only; `poll` / `idle` / `pause` / `resume` / `dispose`
+are then no-ops).  What is missing for `C01_read_eq_scratch_stmt`: effect runs (`pollEff`), whose
+bodies write signals while the effect is the observer.  Proof: `Proofs/Reactive*.lean`
+(invariant `InvR`, big-step lemma `upd_ok`). -/
+theorem C01_read_eq_scratch_noeff :
+    ∀ (p : Prog) (ops : List Op) (m : Nat), WF p = true → progTracked p = true → noEff p = true →
+      isData p m = true →
+      (step p (run p ops) (.read m)).2 = some (specVal p (run p ops) m) := by
+  intro p ops m hwf ht hne hd
+  have hm : m < p.length := by
+    rcases Nat.lt_or_ge m p.length with h | h
+    · exact h
+    · simp [isData, List.getElem?_eq_none h] at hd
+  exact read_eq_scratch_noeff hwf (memoOK_of_wf hwf ht) hne ops m hm
 
 /-- the from-scratch value does not depend on the fuel once it exceeds the node id -/
 theorem C01_scratch_fuel_irrelevant :
@@ -40,7 +59,7 @@ def c01Prog : Prog :=
 
 example :
     let ops : List Op := [.read 5, .set 0 2, .read 4, .set 1 1, .set 0 0, .read 5, .read 3]
-    WF c01Prog = true ∧ progTracked c01Prog = true ∧
+    WF c01Prog = true ∧ progTracked c01Prog = true ∧ noEff c01Prog = true ∧ isData c01Prog 5 = true ∧
     (step c01Prog (run c01Prog ops) (.read 5)).2 = some (specVal c01Prog (run c01Prog ops) 5) ∧
     specVal c01Prog (run c01Prog ops) 5 = 0 := by decide +kernel
 
